@@ -28,16 +28,23 @@ def _run_shard(binary, wdir, idx, scripts):
             for s in todo:
                 f.write(json.dumps(s) + "\n")
         env = dict(os.environ, VERIF_SCRIPTS=inp, VERIF_TRACES=outp, GORACE="halt_on_error=1")
+        cmd = [binary, "-test.run", "^TestRun$", "-test.count", "1", "-test.timeout", "0"]
+        tmo = int(os.environ.get("VERIF_SHARD_TIMEOUT", "180"))
+        pr = subprocess.Popen(cmd, env=env, stdout=subprocess.PIPE, stderr=subprocess.STDOUT, text=True)
         try:
-            p = subprocess.run([binary, "-test.run", "^TestRun$", "-test.count", "1", "-test.timeout", "0"],
-                               env=env, stdout=subprocess.PIPE, stderr=subprocess.STDOUT, text=True,
-                               timeout=int(os.environ.get("VERIF_SHARD_TIMEOUT", "180")))
-            rc, outtxt = p.returncode, p.stdout
-            timed_out = False
-        except subprocess.TimeoutExpired as e:
-            so = e.stdout.decode("utf-8", "replace") if isinstance(e.stdout, bytes) else (e.stdout or "")
-            rc, outtxt = -9, "harness timeout\n" + so[-2000:]
-            timed_out = True
+            outtxt, _ = pr.communicate(timeout=tmo)
+            rc, timed_out = pr.returncode, False
+        except subprocess.TimeoutExpired:
+            # ask the Go runtime for a goroutine dump, then kill
+            import signal
+            pr.send_signal(signal.SIGQUIT)
+            try:
+                outtxt, _ = pr.communicate(timeout=20)
+            except subprocess.TimeoutExpired:
+                pr.kill()
+                outtxt, _ = pr.communicate()
+            rc, timed_out = -9, True
+            outtxt = "harness timeout after %d s; goroutine dump follows\n" % tmo + (outtxt or "")
         got = tracefmt.parse_harness(outp) if os.path.exists(outp) else {}
         progressed = False
         nxt = []
@@ -52,7 +59,12 @@ def _run_shard(binary, wdir, idx, scripts):
                 # a timeout means synctest.Wait never returned: some goroutine was blocked on a mutex (not a
                 # durable block), which the bubble cannot wait out -- a limitation of the harness, not a verdict
                 kind = "hang" if timed_out else ("race" if "WARNING: DATA RACE" in outtxt else "crash")
-                res[s["id"]] = {"obs": g["obs"], "end": None, "crash": kind, "output": outtxt[-6000:]}
+                dump = outtxt[-6000:]
+                if kind == "hang":
+                    # keep the corebgp frames of the dump: who waits for what
+                    keep = [ln for ln in outtxt.splitlines() if ln.startswith("goroutine ") or "corebgp" in ln or "sync." in ln]
+                    dump = "\n".join(keep)[-8000:]
+                res[s["id"]] = {"obs": g["obs"], "end": None, "crash": kind, "output": dump}
                 crashed_one = True
                 progressed = True
             else:
